@@ -239,12 +239,15 @@ func parseAST(mjmlContent string, useCache bool) (*MJMLNode, error) {
 
 	startASTCacheCleanup()
 	hash := hashTemplate(mjmlContent)
-	if cached, found := astCache.Load(hash); found {
+	cached, found := astCache.Load(hash)
+	verifYield("pa.loaded")
+	if found {
 		entry := cached.(*cachedAST)
 		if time.Now().Before(entry.expires) {
 			debug.DebugLog("mjml", "parse-cache-hit", "Using cached MJML AST")
 			return entry.node, nil
 		}
+		verifYield("pa.expired")
 		astCache.Delete(hash)
 	}
 
@@ -263,6 +266,7 @@ func parseAST(mjmlContent string, useCache bool) (*MJMLNode, error) {
 		cacheConfigMutex.RUnlock()
 
 		astCache.Store(hash, &cachedAST{node: node, expires: time.Now().Add(ttl)})
+		verifYield("pa.stored")
 		return node, nil
 	})
 	if err != nil {
